@@ -1,0 +1,20 @@
+//go:build verif
+// +build verif
+
+package revision
+
+import "sync/atomic"
+
+// verifCallback is installed by an external verification harness (build tag `verif` only).
+var verifCallback atomic.Value // func(name string, arg uint64)
+
+// VerifSetCallback installs the callback invoked at every verifPoint of this package.
+func VerifSetCallback(f func(name string, arg uint64)) {
+	verifCallback.Store(f)
+}
+
+func verifPoint(name string, arg uint64) {
+	if f, ok := verifCallback.Load().(func(name string, arg uint64)); ok && f != nil {
+		f(name, arg)
+	}
+}
